@@ -1697,11 +1697,18 @@ def judge_names(run, cell, recipe, model, baseline, obs, MB):
                 run.inconclusive_because("cell %s: the generated configuration file was not executed to its end %s (%s %s)" % (
                     signature(cell), when, o.get("exc"), (o.get("stderr") or obs.get("stderr_all") or "").strip()[-160:]))
                 return
+            err = obs.get("stderr_all") or obs.get("stderr") or ""
+            if " %s:" % ident not in err:
+                # the refusal does not name the name: some real mention was refused - the general mechanism, not this one
+                run.violation(prefix + "valid-configuration-rejected/" + MB[name]["validator"],
+                              "%s: %s loading failed (%s code=%s %s) for valid values (%s); sources %s" % (
+                                  name, when, o.get("exc"), o.get("code"), (err or o.get("msg") or "").strip()[-160:], what,
+                                  json.dumps(shown)), cell)
+                return
             run.violation(prefix + "name-that-is-not-a-setting-stopped-loading/" + family,
                           "%s: %s loading failed (%s code=%s %s) although every setting the sources mention is valid: %s, "
-                          "a name gunicorn has to ignore; sources %s" % (
-                              name, when, o.get("exc"), o.get("code"),
-                              (o.get("stderr") or obs.get("stderr_all") or o.get("msg") or "").strip()[-160:], what,
+                          "a name gunicorn has to ignore - the refusal names it; sources %s" % (
+                              name, when, o.get("exc"), o.get("code"), (err or o.get("msg") or "").strip()[-160:], what,
                               json.dumps(shown)), cell)
             return
         if set(o["values"]) != set(baseline):
@@ -2063,7 +2070,8 @@ def main(tier, seed):
         "they are bound to: cells N / NR expect the merge of the real mentions in every setting and a load that does not "
         "fail (name-that-is-not-a-setting-acted-as-one/<family> when the setting the name resembles has exactly the value "
         "the name is - or, after an edit, was - bound to; name-that-is-not-a-setting-stopped-loading/<family> when loading "
-        "fails although the generated file ran to its last line, which the file itself records; a generated file that did "
+        "fails, the generated file ran to its last line - which the file itself records - and the refusal on stderr names "
+        "the name (otherwise valid-configuration-rejected/<validator>, as everywhere); a generated file that did "
         "not run to its end is inconclusive).  The framework-defaults dict is a different interface (Application.load_config "
         "lower-cases its keys and refuses unknown ones by design): such names are not put there",
         "histories deliver the file by path (-c PATH on the command line or in GUNICORN_CMD_ARGS, file:PATH, discovered "
